@@ -3,7 +3,7 @@
 From Coq Require Import Arith Lia.
 From WaxModel Require Import Base Token Regex Spec Encode Variance Fold Rule Parse Query Glob.
 From WaxProofs Require Import SpecFacts EncodeLang RuleFacts DepthFacts ExhaustFacts FuelFacts PruneFacts ParseTreeFacts BuiltFacts.
-From WaxProofs Require Import BuiltNonempty DepthTreeFacts DepthAltFacts.
+From WaxProofs Require Import BuiltNonempty DepthTreeFacts DepthAltFacts DepthRepFacts.
 Local Open Scope N_scope.
 
 Lemma build_inv : forall e t r, build e = BuildOk t r -> parse e = ParseOk t /\ check t = Ok None.
@@ -53,6 +53,21 @@ Theorem built_alt_depth_sound : forall e t r v p x,
 Proof.
   intros e t r v p x Hb Hrf Hv Hcv Hx Hm Hc Hcan Hn Hroot. destruct (build_inv _ _ _ Hb) as [Hp Hck].
   eapply (depth_alt_sound orbit orbit_nosep); try eassumption.
+  - eapply built_nonempty_branches; exact Hb.
+  - eapply parse_lits_nosep; exact Hp.
+Qed.
+
+(* every glob that builds whose repetitions are written out at least once and have a body with a single depth term *)
+Theorem built_rep_depth_sound : forall e t r v p x,
+  build e = BuildOk t r -> simple_reps t = true ->
+  depth_variance t = Ok v -> depth_closed_variant t = false ->
+  Expands t x -> FlatMatch orbit true true x p -> chain_ok false x = true ->
+  canonical p = true -> 1 <= ncomp p ->
+  starts_sep p = (match x with a :: _ => leaf_is_rooting a | [] => false end) ->
+  in_variance (ncomp p) v.
+Proof.
+  intros e t r v p x Hb Hrf Hv Hcv Hx Hm Hc Hcan Hn Hroot. destruct (build_inv _ _ _ Hb) as [Hp Hck].
+  eapply (depth_rep_sound orbit orbit_nosep); try eassumption.
   - eapply built_nonempty_branches; exact Hb.
   - eapply parse_lits_nosep; exact Hp.
 Qed.
